@@ -62,6 +62,8 @@ THEOREMS = [
     "Pydjinni.Gen.Keywords.split_join",
     "Pydjinni.Gen.Keywords.no_reserved_word_emitted",
     "Pydjinni.Gen.Keywords.modelled_property_sound",
+    "Pydjinni.Gen.Keywords.tokens_join",
+    "Pydjinni.Gen.Keywords.namespace_components_not_reserved",
     "Pydjinni.Gen.Keywords.pascal_not_reserved",
     "Pydjinni.Gen.Keywords.glued_not_reserved",
 ]
@@ -663,8 +665,8 @@ def keyword_obligations(ctx):
     missing = {lang: [w for w in words if w not in tables.get(lang, [])] for lang, words in ref["reference"].items()}
     missing = {k: v for k, v in missing.items() if v}
     # correspondence and specification on the real properties
-    pool = kwtables.name_pool(ctx.seed, tables, ref["reference"], ctx.n(60, 400))
-    cfgs = kwtables.configs(ctx.seed, ctx.n(2, 12))
+    pool = kwtables.name_pool(ctx.seed, tables, ref["reference"], ctx.n(60, 200))
+    cfgs = kwtables.configs(ctx.seed, ctx.n(2, 6))
     results = kwtables.evaluate(ctx.tmp, pool, cfgs, rows)
     infra = [r for r in results if r["kind"] != "ok"]
     if infra:
@@ -690,7 +692,7 @@ def keyword_obligations(ctx):
             reported.add(key)
             ctx.report(key, f"a reserved word of {c['lang']} is written into the generated {c['gen']} code as an identifier",
                        {"input": {"m.djinni": v["program"], "config": v["config"], "targets": v["targets"]}, "twin": v.get("twin"), "word": c["word"],
-                        "property": f"{c['cls']}.{c['attr']}", "idl_name": c["name"], "configuration": c["config"],
+                        "name_property": f"{c['cls']}.{c['attr']}", "idl_name": c["name"], "configuration": c["config"],
                         "evidence": {k: v.get(k) for k in ("identifier_uses", "files", "compiler")}})
     # findings that are a concatenation of several properties: fixed witnesses
     import multiprocessing as mp
@@ -708,6 +710,12 @@ def keyword_obligations(ctx):
         else:
             ctx.stat("known_finding_witness_now_clean:" + w["key"])
     ctx.stats["kw_wall_s"] = round(time.time() - t_start, 1)
+    ctx.assumptions += ["reserved identifiers: the reference tables of Gen/Keywords.lean are the specification (C++20 [lex.key], JLS 17 §3.9 + literals, C99 §6.4.1, "
+                        "ECMA-372 true keywords) and deliberately leave out context-sensitive words",
+                        "reserved identifiers: 'printed in identifier position' = printed by a template output expression; string-literal and comment positions are "
+                        "over-approximated as identifier positions; a print glued to literal identifier characters counts as part of a longer identifier",
+                        "reserved identifiers: a candidate is confirmed by g++/javac for C++, JNI and Java and by identifier-token comparison with a twin program "
+                        "for Objective-C and C++/CLI (no compiler here)"]
     # a broken obligation or correspondence without a concrete program
     if (failed or breaks or untyped) and not any(k.startswith("keyword:") for k in [v["key"] for v in ctx.violations]):
         first = {"obligations_failed": failed[:6], "lean_output": out[-600:] if failed else "", "missing_reference_words": missing,
